@@ -15,7 +15,7 @@ use sx::Sx;
 pub const SIZE_BUDGET: u64 = 65536;
 
 fn case_timeout_secs() -> u64 {
-    std::env::var("VERIF_CASE_TIMEOUT").ok().and_then(|s| s.parse().ok()).unwrap_or(10)
+    std::env::var("VERIF_CASE_TIMEOUT").ok().and_then(|s| s.parse().ok()).unwrap_or(5)
 }
 
 fn run_case(line: &str) -> String {
